@@ -4,7 +4,7 @@ ID = 'C09'
 FILES = ['prysm/polynomials/jacobi.py', 'prysm/polynomials/cheby.py', 'prysm/polynomials/legendre.py',
          'prysm/polynomials/hermite.py', 'prysm/polynomials/laguerre.py', 'prysm/polynomials/zernike.py',
          'prysm/polynomials/qpoly.py', 'prysm/x/raytracing/surfaces.py']
-FUNCTIONS = ['*_der of jacobi/legendre/cheby1-4/hermite_He/hermite_H/laguerre', 'zernike_nm_der', 'jacobi_sum_clenshaw_der (j<=3)',
+FUNCTIONS = ['x.raytracing.surfaces.Q2d_and_der/off_axis_conic_sigma/off_axis_conic_sigma_der/off_axis_conic_der', '*_der of jacobi/legendre/cheby1-4/hermite_He/hermite_H/laguerre', 'zernike_nm_der', 'jacobi_sum_clenshaw_der (j<=3)',
              'clenshaw_qbfs_der', 'clenshaw_q2d_der', 'compute_z_zprime_Qbfs/Qcon/Q2d',
              'x.raytracing.surfaces.sphere_sag/_der, conic_sag/_der, off_axis_conic_sag/_der, off_axis_conic_sigma/_der']
 STUBS = ['np.sqrt -> sqrt atoms; np.cos/np.sin -> phasors']
@@ -50,6 +50,9 @@ def configs(tier):
         for la, lb in ((1, 1), (2, 1), (3, 3), (4, 2), (5, 6), (6, 5)) if m == 1 else ((1, 1), (2, 1), (3, 3), (4, 2)):
             out.append({'name': 'q2d_zprime-m%d-a%d-b%d' % (m, la, lb), 'kind': 'q2d', 'm': m, 'la': la, 'lb': lb})
     out.append({'name': 'q2d_zprime-mixed', 'kind': 'q2d_mixed'})
+    # the 2D-Q freeform surface of the ray tracer: Q departure scaled by 1/sigma on a (shifted) base conic, normalisation radius != 1
+    for off in ('none', 'dx', 'dy'):
+        out.append({'name': 'q2d_surface_slopes-%s' % off, 'kind': 'q2d_surface', 'off': off})
     for s in ('sphere', 'conic'):
         out.append({'name': 'sag_der-%s' % s, 'kind': 'sag', 'surf': s})
     for s in ():    # off-axis conics: sqrt of a phasor-dependent radicand is not encodable yet (see OUTSIDE)
@@ -68,6 +71,9 @@ def params(cfg):
         return [('alpha', {'gt': -1}), ('beta', {'gt': -1})]
     if k in ('q2d', 'q2d_mixed'):
         return [('t', {})]
+    if k == 'q2d_surface':
+        return [('x', {'gt': 0, 'lt': 1}), ('y', {'gt': 0, 'lt': 1}), ('c', {'gt': 0, 'lt': 0.3}), ('k', {'gt': -2, 'lt': 0.5}),
+                ('R', {'gt': 1, 'lt': 3}), ('s', {'gt': 0, 'lt': 0.5})]
     if k == 'sag':
         # curvature, conic constant, radial coordinate, azimuth, off-axis distances; keep the radicand positive
         return [('c', {'gt': 0, 'lt': 0.5}), ('k', {'gt': -2, 'lt': 0}), ('rho', {'gt': 0, 'lt': 1}), ('t', {}),
@@ -226,6 +232,39 @@ def run(cfg, H):
         else:
             ref_t = ridders(lambda z_: float(explicit(u, z_)), t)
         H.eq('q2d d/dt', dt, ref_t)
+    elif k == 'q2d_surface':
+        S = H.mod('prysm.x.raytracing.surfaces')
+        np = H.np
+        x, y, c, kk, R, sh = H.param('x'), H.param('y'), H.param('c'), H.param('k'), H.param('R'), H.param('s')
+        dx = sh if cfg['off'] == 'dx' else 0
+        dy = sh if cfg['off'] == 'dy' else 0
+        cm0 = [H.content('c0'), H.content('c1')]
+        ams = [[H.content('a10'), H.content('a11')]]
+        bms = [[H.content('b10')]]
+        px, py = x + dx, y + dy
+        if H.mode == 'symbolic':
+            A = px * px + py * py
+            H.assume(1 - (1 + kk) * c * c * A > 0, 'the point is on the real part of the base conic')
+            H.assume(1 - kk * c * c * A > 0, 'sigma is real')
+
+        def surf(xv, yv):
+            return S.Q2d_and_der(cm0, ams, bms, H.asarray([xv]), H.asarray([yv]), R, c, kk, dx=dx, dy=dy)
+        def first(v):        # 1-D coordinate vectors are expanded to a grid: results are (1, 1) arrays
+            return np.asarray(v).reshape(-1)[0]
+        z, zr, zt = surf(x, y)
+        H.value('Q2d surface sag', first(z))
+        if H.mode == 'symbolic':
+            zx, zy = H.diff(first(z), 'x'), H.diff(first(z), 'y')
+            r = H.sqrt(x * x + y * y)
+            ref_r = (zx * x + zy * y) / r
+            ref_t = x * zy - y * zx
+        else:
+            import math
+            r0, t0 = math.hypot(x, y), math.atan2(y, x)
+            ref_r = ridders(lambda rr: float(first(surf(rr * math.cos(t0), rr * math.sin(t0))[0])), r0, h=0.01)
+            ref_t = ridders(lambda tt: float(first(surf(r0 * math.cos(tt), r0 * math.sin(tt))[0])), t0, h=0.01)
+        H.eq('Q2d surface: radial slope is the derivative of the sag', first(zr), ref_r)
+        H.eq('Q2d surface: azimuthal slope is the derivative of the sag', first(zt), ref_t)
     elif k == 'sag':
         S = H.mod('prysm.x.raytracing.surfaces')
         c, kk, rho, t = H.param('c'), H.param('k'), H.param('rho'), H.param('t')
